@@ -155,6 +155,12 @@ func Build(g *Grammar, o BuildOpts) *Built {
 			if o.Interp != nil {
 				s = s.Bind(o.Interp)
 			}
+			if e.Tok != "" {
+				s = s.Token(e.Tok)
+			}
+			if e.RS {
+				s = s.HandleResult(combinator.ReturnSingle())
+			}
 			return s
 		}
 		named := func(f parser.Func) parsley.Parser {
@@ -266,7 +272,22 @@ func Build(g *Grammar, o BuildOpts) *Built {
 					return body.Parse(ctx, l, pos)
 				})
 			}
-			*b.NT[i] = memoize(-1-i, fmt.Sprintf("N%d", i), inner, false).(parser.Func)
+			pf := memoize(-1-i, fmt.Sprintf("N%d", i), inner, false).(parser.Func)
+			if i < len(g.RuleNames) && g.RuleNames[i] != "" {
+				name := g.RuleNames[i]
+				named := pf.Name(name)
+				pf = named
+				if probe != nil && probe.LogFails {
+					pf = func(ctx *parsley.Context, l data.IntMap, pos parsley.Pos) (parsley.Node, data.IntSet, parsley.Error) {
+						n, cp, err := named.Parse(ctx, l, pos)
+						if n == nil {
+							probe.namedFails = append(probe.namedFails, failRec{int(pos), "was expecting " + name})
+						}
+						return n, cp, err
+					}
+				}
+			}
+			*b.NT[i] = pf
 		} else {
 			bb := body
 			*b.NT[i] = func(ctx *parsley.Context, l data.IntMap, pos parsley.Pos) (parsley.Node, data.IntSet, parsley.Error) {
